@@ -101,7 +101,9 @@ DIRSETS = [{"cf": "o", "py": "o", "lua": "o", "yaml": "o"},
            {"cf": "cf", "py": "py", "lua": "lua", "yaml": "y"}]
 
 
-def run_config(base, idx, shape, lib, ov, dirs):
+def run_config(base, idx, shape, lib, ov, dirs, history=False):
+    """history: another library (C, Fortran and Python wrappers, helpers, a class) is generated first in the same
+    process, with directories and list files of its own -- the judged run must look as it does alone."""
     import yaml
 
     d = os.path.join(base, "r%d" % idx)
@@ -131,11 +133,24 @@ def run_config(base, idx, shape, lib, ov, dirs):
         argv += ["--outdir-yaml", real[dirs["yaml"]]]
     argv.append(yp)
     tf = os.path.join(d, "trace.ndjson")
-    rc, so, se = shroudrun.run(argv, probes=["files"], trace=tf)
+    groups = [argv]
+    if history:
+        pd = os.path.join(d, "prev")
+        os.makedirs(os.path.join(pd, "out"))
+        py = {"library": "prev", "cxx_header": "prev.hpp", "options": {"wrap_c": True, "wrap_fortran": True, "wrap_python": True},
+              "declarations": shapes()["utility"]({})}
+        with open(os.path.join(pd, "prev.yaml"), "w") as f:
+            yaml.safe_dump(py, f, default_flow_style=False, sort_keys=False)
+        groups = [["--outdir", os.path.join(pd, "out"), "--logdir", pd, "--cfiles", os.path.join(pd, "cfiles.txt"),
+                   "--ffiles", os.path.join(pd, "ffiles.txt"), os.path.join(pd, "prev.yaml")], argv]
+    rc, so, se = shroudrun.run(groups, probes=["files"], trace=tf)
     back = {v: k for k, v in real.items()}
     if rc != 0:
-        return {"kind": "run", "error": se[-600:], "label": (shape, lib, ov, dirs)}
+        return {"kind": "run", "error": se[-600:], "label": (shape, lib, ov, dirs) + (("after-history",) if history else ())}
     ev = shroudrun.read_events(tf)
+    if history:
+        last = max(i for i, e in enumerate(ev) if e["e"] == "RunBegin")
+        ev = ev[last:]
     writes, aux = [], []
     for e in ev:
         if e["e"] == "write_file":
@@ -188,7 +203,7 @@ def run_config(base, idx, shape, lib, ov, dirs):
                   {"file": "wrapsel_hidden.cpp", "on": bool(eff["c"])}]
     return {"kind": "run", "scopes": scopes, "cfg": cfgrec, "writes": writes, "cfiles": readlist("cfiles.txt"),
             "ffiles": readlist("ffiles.txt"), "listing": listing, "aux": aux, "present": present,
-            "label": (shape, lib, ov, dirs), "digests": digests}
+            "label": (shape, lib, ov, dirs) + (("after-history",) if history else ()), "digests": digests}
 
 
 def run(tier):
@@ -219,6 +234,10 @@ def run(tier):
         with common.scratch("c15-") as base:
             with cf.ThreadPoolExecutor(common.NCPU) as ex:
                 res = list(ex.map(lambda a: run_config(base, a[0], *a[1]), enumerate(configs)))
+                # the same configurations as the second run of a process (main_with_args / create_wrapper are
+                # documented for use from setup.py): nothing of the first run may show in the lists or directories
+                hcfgs = [cfg for i, cfg in enumerate(configs) if thorough or i % 9 == 0 or (cfg[0] in ("funcs", "utility") and cfg[2] is NOOV)]
+                res += list(ex.map(lambda a: run_config(base, len(configs) + 1000 + a[0], *a[1], history=True), enumerate(hcfgs)))
             # toggle pairs
             togg = []
             idx = len(configs)
@@ -280,9 +299,9 @@ def run(tier):
             if v == "REJECT":
                 lab = t["label"]
                 if t["kind"] == "run":
-                    shape, lib, ov, dirs = lab
+                    shape, lib, ov, dirs = lab[:4]
                     d0 = detail.split('"')[1]
-                    key = "run:%s:%s" % (shape, d0[:60])
+                    key = "run:%s:%s%s" % (shape, d0[:60], ":after-history" if len(lab) > 4 else "")
                 else:
                     key = "toggle:%s" % lab[0][0]
                 c.violation(key, "%s: %s" % (json.dumps(lab)[:300], detail),
